@@ -1,6 +1,7 @@
 #!/usr/bin/env python3
-"""Fills `needs_to_manifest` of every seeded/<id>/meta.json from the table below (what each independently written
-change does and what it needs in order to show) and regenerates seeded/SUMMARY.md."""
+"""Fills `what_it_changes`, `needs_to_manifest` and `history` of every seeded/<id>/meta.json from the tables below (what each
+independently written change does, what it needs in order to show, and - for the changes the quick check did not report at
+first - what was strengthened) and regenerates seeded/SUMMARY.md."""
 import glob
 import json
 import os
@@ -90,6 +91,33 @@ NOTES = {
                "two queries differing in one non-ASCII character at the same position"),
 }
 
+MISSED = "initially missed by the quick check; strengthened by "
+REBASED = ("patch re-created by hand on /repo HEAD (the same change) after later fix commits touched the same lines")
+
+# name -> one sentence on how the evaluation of this change went over time (only where there is something to say)
+HISTORY = {
+    "C02_m1": MISSED + "adding zero-parameter called lambdas to the C02 generator",
+    "C03_m1": MISSED + "generating several lambdas per line with short NAME tokens between them in the finder generator",
+    "C04_m1": REBASED,
+    "C04_m2": MISSED + "passing the same callable twice with the captured variable rebound in between",
+    "C05_m1": MISSED + "extending the capture generator with nested helpers that hand lambdas on to further helpers",
+    "C05_m2": MISSED + "extending the capture generator with a refused helper call followed by a name spelled like its parameter",
+    "C06_m1": ("initially reported only as a broken correspondence (no failing input); strengthened by adding oracle inputs whose "
+               "element names are contained in the loop variable name"),
+    "C06_m2": MISSED + "adding dataclasses with kw_only and InitVar fields to the generator; " + REBASED,
+    "C08_m2": MISSED + "generating type variables at nesting depth >= 2",
+    "C09_m2": MISSED + "generating a decorated subclass that inherits the called method from an undecorated base",
+    "C10_m1": (REBASED + "; the C10 check supplies lambdas as source strings and ast objects only and leaves the callable path to "
+               "C04 (stated in its ASSUME), so this change is reported by the C04 quick check, not by C10's"),
+    "C11_m2": (MISSED + "making the C11 oracle observe, on every live stream after every step, the _q_metadata carried by the "
+               "nodes of the query AST and lookup_query_metadata of every key besides dump and item type, adding an independence "
+               "oracle (a stream equals the one built from its own derivation path alone) and corpus histories with QMetaData on "
+               "bare tops shared with children and siblings"),
+    "C14_m2": MISSED + "adding integer dictionary keys to the chain generator",
+    "C18_m1": MISSED + "adding the boundary indices -len, len-1 and len",
+    "C20_m1": MISSED + "adding the in-place edit oracle (hash, edit the same tree, hash again)",
+}
+
 
 def main():
     rows = []
@@ -102,6 +130,10 @@ def main():
         what, needs = NOTES.get(name, ("", m.get("needs_to_manifest", "")))
         m["what_it_changes"] = what
         m["needs_to_manifest"] = needs
+        if name in HISTORY:
+            m["history"] = HISTORY[name]
+        else:
+            m.pop("history", None)
         with open(mp, "w") as f:
             json.dump(m, f, indent=1)
         for c in m.get("checks", []):
